@@ -24,6 +24,7 @@ REQUIRED_COUNTERS = ["c15_augment_calls", "c15_copies_checked", "c15_eval_calls"
 MIN_NONTRIVIAL = {"quick": 1500, "thorough": 6000}
 WORKERS = {"quick": 14, "thorough": 16}
 BUDGET_S = {"quick": 500, "thorough": 3000}
+THOROUGH_ROUNDS = 8
 
 
 def cases(tier, seed):
